@@ -144,4 +144,281 @@ theorem C19_reduce_is_fold {β : Type} (rules : AList NT (AList DP (List NT)))
     reduceDet rules f t v start info = viaDeriv f v (derivDet rules t start info) :=
   reduceDet_eq rules f t v start info
 
+/-! ## Unambiguous layer (after the proposed fixes C19-F1, C19-F2) -/
+
+/-- **C19_norm (U).** At every non-terminal with at least one tagged alternative, the weights of
+    all (rule, alternative) pairs sum to `1 - ε·(M(M-1)/2 + C·M)`, where `M`, `C` are the numbers
+    of alternatives of variable and constant rules.  (`wfAlts`: the alternatives of a rule are
+    distinct — they are dict keys.)  The case "variables without any alternative" (division by
+    zero in the code) is excluded by `0 < M + C` resp. `0 < Np`. -/
+theorem C19_norm_u (L : Layer) (v ε : ℝ) (tvo : Bool) (rules : AList NT (AList DP (List Alt)))
+    (starts : List NT) (x : List ℝ) (tags : AList NT TagsU) (st : AList NT ℝ)
+    (h : tensor2logProbU L v ε tvo rules starts x = some (tags, st))
+    (hv0 : 0 < v) (hv1 : v < 1) (hε : 0 ≤ ε) (hwf : wfRules rules = true) (hwa : wfAlts rules = true) :
+    List.Forall₂ (fun e t => t.1 = e.1 ∧
+        ((0 < countAlts .var e.2 + countAlts .const e.2 ∨
+            (countKind .var e.2 + countKind .const e.2 = 0 ∧ 0 < countAlts .prim e.2)) →
+         hypEps v ε tvo (decide (0 < countAlts .prim e.2)) (countAlts .var e.2) (countAlts .const e.2) = true →
+         massU t.2 = specNorm ε tvo (countAlts .var e.2) (countAlts .const e.2))) rules tags := by
+  unfold tensor2logProbU at h
+  simp only [] at h
+  split at h
+  · rename_i t s ht _
+    simp only [Option.some.injEq, Prod.mk.injEq] at h
+    obtain ⟨rfl, rfl⟩ := h
+    have hf := allSomeL_forall₂_of _ (fun e => (AList.keys e.2).Nodup ∧ ∀ r ∈ e.2, r.2.Nodup) rules t ht
+      (fun e he => ⟨wfRules_mem hwf e he, wfAlts_mem hwa e he⟩)
+    refine hf.imp ?_
+    intro e t' ⟨⟨hnd, halts⟩, het⟩
+    obtain ⟨h1, h2, h3⟩ := tagEntryU_mass L v ε tvo _ e t' het hv0 hv1 hε hnd halts (fun _ => true) true true
+      (fun _ _ => rfl) (fun _ _ => rfl)
+    refine ⟨h1, ?_⟩
+    intro hcase hhyp
+    rw [massU_eq]
+    rcases hcase with hmc | ⟨hmc0, hnp⟩
+    · rw [h2 hmc hhyp]; simp only [if_true, specNorm, ofNat_real]; push_cast; ring
+    · rw [h3 hmc0 hnp]
+      have hv : countAlts .var e.2 = 0 := by
+        by_contra hne
+        obtain ⟨r, hr, hk, _⟩ := (countAlts_pos_iff .var e.2).mp (Nat.pos_of_ne_zero hne)
+        have : 0 < countKind .var e.2 := by
+          unfold countKind
+          apply List.length_pos_of_mem (a := r.1)
+          simp only [List.mem_filter, kindIs, AList.keys, List.mem_map, decide_eq_true_eq]
+          exact ⟨⟨r, hr, rfl⟩, hk⟩
+        omega
+      have hc : countAlts .const e.2 = 0 := by
+        by_contra hne
+        obtain ⟨r, hr, hk, _⟩ := (countAlts_pos_iff .const e.2).mp (Nat.pos_of_ne_zero hne)
+        have : 0 < countKind .const e.2 := by
+          unfold countKind
+          apply List.length_pos_of_mem (a := r.1)
+          simp only [List.mem_filter, kindIs, AList.keys, List.mem_map, decide_eq_true_eq]
+          exact ⟨⟨r, hr, rfl⟩, hk⟩
+        omega
+      simp [specNorm, epsTerm_real, hv, hc, tri]
+  · simp at h
+
+/-- **C19_varmass (U).** Whenever a variable or constant alternative exists, the variable and
+    constant alternatives together receive `variable_probability` (if a primitive alternative
+    exists, else everything) minus the ε-term; the primitive alternatives receive the rest. -/
+theorem C19_varmass_u (L : Layer) (v ε : ℝ) (tvo : Bool) (rules : AList NT (AList DP (List Alt)))
+    (starts : List NT) (x : List ℝ) (tags : AList NT TagsU) (st : AList NT ℝ)
+    (h : tensor2logProbU L v ε tvo rules starts x = some (tags, st))
+    (hv0 : 0 < v) (hv1 : v < 1) (hε : 0 ≤ ε) (hwf : wfRules rules = true) (hwa : wfAlts rules = true) :
+    List.Forall₂ (fun e t => t.1 = e.1 ∧
+        (0 < countAlts .var e.2 + countAlts .const e.2 →
+         hypEps v ε tvo (decide (0 < countAlts .prim e.2)) (countAlts .var e.2) (countAlts .const e.2) = true →
+         massU (t.2.filter (fun z => z.1.kind ≠ .prim))
+            = specVarMass v ε tvo (decide (0 < countAlts .prim e.2)) (countAlts .var e.2) (countAlts .const e.2)
+         ∧ massU (t.2.filter (fun z => z.1.kind = .prim))
+            = 1 - (if 0 < countAlts .prim e.2 then v else 1))) rules tags := by
+  unfold tensor2logProbU at h
+  simp only [] at h
+  split at h
+  · rename_i t s ht _
+    simp only [Option.some.injEq, Prod.mk.injEq] at h
+    obtain ⟨rfl, rfl⟩ := h
+    have hf := allSomeL_forall₂_of _ (fun e => (AList.keys e.2).Nodup ∧ ∀ r ∈ e.2, r.2.Nodup) rules t ht
+      (fun e he => ⟨wfRules_mem hwf e he, wfAlts_mem hwa e he⟩)
+    refine hf.imp ?_
+    intro e t' ⟨⟨hnd, halts⟩, het⟩
+    obtain ⟨h1, h2, _⟩ := tagEntryU_mass L v ε tvo _ e t' het hv0 hv1 hε hnd halts selVar false true
+      (fun P hP => by simp [selVar, kindIs, hP]) (fun P hP => by simp [selVar, kindIs, hP])
+    obtain ⟨_, h2', _⟩ := tagEntryU_mass L v ε tvo _ e t' het hv0 hv1 hε hnd halts selPrim true false
+      (fun P hP => by simp [selPrim, kindIs, hP]) (fun P hP => by simp [selPrim, kindIs, hP])
+    refine ⟨h1, ?_⟩
+    intro hmc hhyp
+    constructor
+    · have : (fun z : DP × AList Alt ℝ => decide (z.1.kind ≠ Kind.prim)) = (fun z => selVar z.1) := by
+        funext z; simp [selVar, kindIs]
+      rw [this, massU_filter_eq, h2 hmc hhyp]
+      simp only [specVarMass]
+      by_cases hnp : 0 < countAlts .prim e.2 <;> simp [hnp]
+    · have : (fun z : DP × AList Alt ℝ => decide (z.1.kind = Kind.prim)) = (fun z => selPrim z.1) := by
+        funext z; simp [selPrim, kindIs]
+      rw [this, massU_filter_eq, h2' hmc hhyp]
+      simp
+  · simp at h
+
+/-- **C19_start_norm.** The start tags of the U-layer are normalised: `Σ_S exp(start_tag S) = 1`
+    (for every tensor; `st ≠ []`: the grammar has a start symbol). -/
+theorem C19_start_norm (L : Layer) (v ε : ℝ) (tvo : Bool) (rules : AList NT (AList DP (List Alt)))
+    (starts : List NT) (x : List ℝ) (tags : AList NT TagsU) (st : AList NT ℝ)
+    (h : tensor2logProbU L v ε tvo rules starts x = some (tags, st)) (hne : st ≠ []) :
+    sumL (st.map (fun e => (ExpLog.exp e.2 : ℝ))) = 1 := by
+  unfold tensor2logProbU at h
+  simp only [] at h
+  split at h
+  · rename_i t s _ hs
+    simp only [Option.some.injEq, Prod.mk.injEq] at h
+    obtain ⟨rfl, rfl⟩ := h
+    exact startTags_norm L starts _ _ hs hne
+  · simp at h
+
+/-- **C19_positive (U).** Every converted weight and start weight is positive (see the remark at
+    `C19_positive_det`); `s` and `s'` are the positive normalisers used by `normalise`. -/
+theorem C19_positive_u (tags : AList NT TagsU) (st : AList NT ℝ) :
+    (∀ e ∈ expTagsU tags, ∀ d ∈ e.2, ∀ z ∈ d.2, 0 < z.2) ∧ (∀ e ∈ expStartU st, 0 < e.2) := by
+  constructor
+  · intro e he d hd z hz
+    simp only [expTagsU, List.mem_map] at he
+    obtain ⟨e0, _, rfl⟩ := he
+    simp only [List.mem_map] at hd
+    obtain ⟨d0, _, rfl⟩ := hd
+    simp only [List.mem_map] at hz
+    obtain ⟨z0, _, rfl⟩ := hz
+    exact Real.exp_pos _
+  · intro e he
+    simp only [expStartU, List.mem_map] at he
+    obtain ⟨e0, _, rfl⟩ := he
+    exact Real.exp_pos _
+
+/-- **C19_toProb (U).** `to_prob_u_grammar` = `exp` of every tag followed by `normalise`: every
+    weight of `S` is divided by `Σ exp(tags of S)` (which is `specNorm`, i.e. 1 without the ordering
+    trick, by `C19_norm_u`) and every start weight by `Σ exp(start tags)` (= 1 by `C19_start_norm`). -/
+theorem C19_toProb_u (tags : AList NT TagsU) (st : AList NT ℝ) :
+    toProbU tags st =
+      (tags.map (fun e => (e.1, e.2.map (fun d => (d.1, d.2.map (fun z => (z.1, Real.exp z.2 / massU e.2)))))),
+       st.map (fun e => (e.1, Real.exp e.2 / sumL (st.map (fun e => (ExpLog.exp e.2 : ℝ)))))) := by
+  unfold toProbU normaliseU expTagsU expStartU massU
+  simp [List.map_map, Function.comp_def]
+
+/-- **C19_consistent (U).** If `log_probability t` returns `lp`, then `t` has a derivation `d`
+    from a start symbol `S0` and `exp lp` = (weight of `S0`) × (product of the weights of the
+    (rule, alternative) steps of `d`), the weights being `exp` of the tags — by `C19_toProb_u`,
+    `C19_norm_u`, `C19_start_norm` these are the weights of the converted grammar exactly when
+    `total_variable_order = False`, and up to the factor `specNorm` per step otherwise. -/
+theorem C19_consistent_u (rules : AList NT (AList DP (List Alt))) (starts : List NT)
+    (tags : AList NT TagsU) (st : AList NT ℝ) (t : Prog) (lp : ℝ)
+    (h : logProbabilityU rules starts tags st t = some lp) :
+    ∃ S0 ∈ starts, ∃ d ∈ altsU rules t S0 [],
+      derivWeightU (expTagsU tags) (expStartU st) S0 d = some (Real.exp lp) :=
+  consistent_u rules starts tags st t lp h
+
+/-- **C19_encode (U).** `encode t` is the indicator of the positions of the primitive rules of the
+    derivations of `t` (from every start symbol; exactly one derivation for an unambiguous grammar). -/
+theorem C19_encode_u (L : Layer) (rules : AList NT (AList DP (List Alt))) (starts : List NT) (t : Prog)
+    (out : List ℕ) (h : encodeU L rules starts t = some out) :
+    out = indicator L.outputSize (positionsOf L (allStepsU rules starts t))
+      ∧ ∀ p ∈ positionsOf L (allStepsU rules starts t), p < L.outputSize :=
+  encode_u L rules starts t out h
+
+/-! ## Non-vacuity: a literal layer on which every hypothesis holds -/
+section Examples
+
+def plus : DP := ⟨.prim, "+"⟩
+def one : DP := ⟨.prim, "1"⟩
+def x0 : DP := ⟨.var, "var0"⟩
+def cst : DP := ⟨.const, "cst"⟩
+/-- `S1 -> + S2 S3 | 1`, `S2 -> var0 | cst | 1`, `S3 -> var0 | 1` -/
+def exRules : AList NT (AList DP (List NT)) :=
+  [(1, [(plus, [2, 3]), (one, [])]), (2, [(x0, []), (cst, []), (one, [])]), (3, [(x0, []), (one, [])])]
+def exAbs : NT → Abs := fun S => if S = 2 then some (plus, 0) else if S = 3 then some (plus, 1) else none
+def exL : Layer := mkLayerDet exAbs (fun _ s => s) [exRules]
+def exLlit : Layer :=
+  ⟨[(1, none), (2, some (plus, 0)), (3, some (plus, 1))],
+   [(none, [1]), (some (plus, 0), [2]), (some (plus, 1), [3])],
+   [(none, [plus, one]), (some (plus, 0), [one]), (some (plus, 1), [one])],
+   [],
+   [(none, (0, 2, [(plus, 0), (one, 1)])), (some (plus, 0), (2, 1, [(one, 0)])), (some (plus, 1), (3, 1, [(one, 0)]))],
+   4⟩
+theorem exL_eq : exL = exLlit := by decide
+/-- `(+ var0 1)` -/
+def exProg : Prog := .node plus [.node x0 [], .node one []]
+
+example : wfRules exRules = true := by decide
+/-- the model returns a grammar on the literal layer (hypothesis `h` of C19_norm_det, C19_varmass_det) -/
+example : ∃ tags, tensor2logProbDet exL (1/5 : ℝ) (1/10^7) true exRules [0, 3, -2, 80] = some tags := by
+  rw [exL_eq]
+  simp [tensor2logProbDet, allSomeL, tagEntryDet, exRules, exLlit, AList.lookup, primTags, slice, normalize,
+    AList.keys, plus, one, x0, cst, setSlice, logSoftmax]
+/-- the hypothesis of the ordering trick at `S2` (one variable, one constant, a primitive) -/
+example : hypEps (1/5 : ℝ) (1/10^7) true (decide (0 < countKind .prim (exRules.lookup 2 |>.getD [])))
+    (countKind .var (exRules.lookup 2 |>.getD [])) (countKind .const (exRules.lookup 2 |>.getD [])) = true := by
+  have h1 : countKind .prim (exRules.lookup 2 |>.getD []) = 1 := by decide
+  have h2 : countKind .var (exRules.lookup 2 |>.getD []) = 1 := by decide
+  have h3 : countKind .const (exRules.lookup 2 |>.getD []) = 1 := by decide
+  rw [h1, h2, h3]
+  simp [hypEps]; norm_num
+/-- `log_probability (+ var0 1)` is defined (hypothesis of C19_consistent_det) -/
+example : ∃ lp, logProbabilityDet exRules 1
+    ([(1, [(plus, (-1 : ℝ)), (one, -2)]), (2, [(one, -1), (x0, -2), (cst, -3)]), (3, [(one, -1), (x0, -2)])]) exProg = some lp := by
+  simp [logProbabilityDet, exProg, reduceDet, reduceDetArgs, deriveDet, exRules, AList.lookup, addTagDet, tagDet,
+    plus, one, x0, cst]
+/-- `encode (+ var0 1)` marks `(None, +)` and `((+,1), 1)` (hypothesis of C19_encode_det) -/
+example : encodeDet exL exRules 1 exProg = some [1, 0, 0, 1] := by decide
+
+/-- the same grammar as an unambiguous grammar with the single start symbol `S1` -/
+def exRulesU : AList NT (AList DP (List Alt)) :=
+  [(1, [(plus, [[2, 3]]), (one, [[]])]), (2, [(x0, [[]]), (cst, [[]]), (one, [[]])]), (3, [(x0, [[]]), (one, [[]])])]
+def exLU : Layer := mkLayerU exAbs (fun _ s => s) [(exRulesU, [1])]
+def exLUlit : Layer :=
+  ⟨[(1, none), (2, some (plus, 0)), (3, some (plus, 1))],
+   [(none, [1]), (some (plus, 0), [2]), (some (plus, 1), [3])],
+   [(none, [plus, one]), (some (plus, 0), [one]), (some (plus, 1), [one])],
+   [none],
+   [(none, (0, 2, [(plus, 0), (one, 1)])), (some (plus, 0), (2, 1, [(one, 0)])), (some (plus, 1), (3, 1, [(one, 0)]))],
+   5⟩
+theorem exLU_eq : exLU = exLUlit := by decide
+
+example : wfRules exRulesU = true ∧ wfAlts exRulesU = true := by decide
+/-- hypothesis `h` of C19_norm_u, C19_varmass_u, C19_start_norm, with a non-empty start table -/
+example : ∃ tags st, tensor2logProbU exLU (1/5 : ℝ) (1/10^7) true exRulesU [1] [0, 3, -2, 80, 7] = some (tags, st)
+    ∧ st ≠ [] := by
+  rw [exLU_eq]
+  simp [tensor2logProbU, allSomeL, tagEntryU, exRulesU, exLUlit, AList.lookup, primTagsU, slice, normalize,
+    plus, one, x0, cst, setSlice, logSoftmax, startTagsU, AList.insert, setInner]
+/-- hypothesis of C19_consistent_u -/
+example : ∃ lp, logProbabilityU exRulesU [1]
+    ([(1, [(plus, [([2, 3], (-1 : ℝ))]), (one, [([], -2)])]), (2, [(x0, [([], -2)]), (cst, [([], -3)]), (one, [([], -1)])]),
+      (3, [(x0, [([], -2)]), (one, [([], -1)])])]) [(1, 0)] exProg = some lp := by
+  simp [logProbabilityU, exProg, reduceU, altsU, altsUArgs, deriveU, exRulesU, AList.lookup, addTagU, tagU,
+    plus, one, x0, cst, allSomeL, foldlO]
+/-- hypothesis of C19_encode_u -/
+example : encodeU exLU exRulesU [1] exProg = some [1, 0, 0, 1, 0] := by decide
+
+end Examples
+
+/-! ## Findings: the code before the proposed fixes violates the property (witnesses on the model) -/
+
+/-- **finding C19-F1** (`log_probability` of the U-layer before the fix).  Two start symbols `S1 -> a`,
+    `S2 -> b`, all rule tags 0 (weight 1), start tags `log(1/2)` each (what the zero tensor gives):
+    the old `log_probability a` is 0, i.e. probability 1, whereas the converted grammar gives the
+    derivation the probability 1/2 (start weight × rule weight). -/
+theorem finding_C19_F1 :
+    let a : DP := ⟨.prim, "a"⟩
+    let b : DP := ⟨.prim, "b"⟩
+    let rules : AList NT (AList DP (List Alt)) := [(1, [(a, [[]])]), (2, [(b, [[]])])]
+    let tags : AList NT TagsU := [(1, [(a, [([], 0)])]), (2, [(b, [([], 0)])])]
+    let st : AList NT ℝ := [(1, Real.log (1/2)), (2, Real.log (1/2))]
+    let d : List StepU := [⟨dummyNT, 1, a, [], []⟩]
+    logProbabilityUOld rules [1, 2] tags (.node a []) = some (0 : ℝ)
+    ∧ altsU rules (.node a []) 1 [] = [d] ∧ altsU rules (.node a []) 2 [] = []
+    ∧ derivWeightU (expTagsU tags) (expStartU st) 1 d = some (1/2 : ℝ)
+    ∧ Real.exp 0 ≠ (1/2 : ℝ)
+    ∧ logProbabilityU rules [1, 2] tags st (.node a []) = some (0 + Real.log (1/2) + 0) := by
+  refine ⟨?_, ?_, ?_, ?_, ?_, ?_⟩
+  · simp [logProbabilityUOld, reduceU, altsU, deriveU, AList.lookup, allSomeL, foldlO, addTagU, tagU]
+  · simp [altsU, deriveU, AList.lookup, dummyNT]
+  · simp [altsU, deriveU, AList.lookup]
+  · simp [derivWeightU, expTagsU, expStartU, AList.lookup, foldlO, mulTagU, tagU]
+    rw [Real.exp_neg, Real.exp_log (by norm_num : (0 : ℝ) < 2)]
+  · simp
+  · simp [logProbabilityU, reduceU, altsU, deriveU, AList.lookup, allSomeL, foldlO, addTagU, tagU]
+
+/-- **finding C19-F2** (U-layer before the fix).  A non-terminal whose only rule is a variable with
+    two alternatives (a variable used as a function): the old code gives each alternative the whole
+    share `1/len(variables)`, so the weights sum to 2 instead of 1; the fixed code gives 1. -/
+theorem finding_C19_F2 :
+    let f : DP := ⟨.var, "var0"⟩
+    massU (tagNTUOld (1/5 : ℝ) 0 false [(f, [])] [(f, [[1], [2]])] []) = 2
+    ∧ massU (tagNTU (1/5 : ℝ) 0 false [(f, [])] [(f, [[1], [2]])] []) = 1 := by
+  constructor
+  · simp [tagNTUOld, massU, sumL, assignVarsU, assignAltsU, assignConstsU, setInner, AList.lookup, AList.insert]
+    norm_num
+  · simp [tagNTU, massU, sumL, assignVarsU, assignAltsU, assignConstsU, setInner, AList.lookup, AList.insert, nAlts]
+    rw [Real.exp_neg, Real.exp_log (by norm_num : (0 : ℝ) < 2)]
+    norm_num
+
 end PS.Predictor
